@@ -704,3 +704,644 @@ pub fn norecv(seed: u64) -> (Scenario, SchedCfg) {
     let c = sched_for(&mut g.rng, &s, 50);
     (s, c)
 }
+
+/// `teardown`: small concurrent scenarios whose last operations are handle drops, so the
+/// scheduler decides whose drop is last and what is in flight when the queue destructor
+/// runs: queue empty / full / partially consumed, streams at different positions, values
+/// refused and handed back, consumers that leave in the middle of a stream (C05).
+pub fn teardown(seed: u64) -> (Scenario, SchedCfg) {
+    let mut g = Gen::new(seed);
+    let flavour = pick_flavour(&mut g.rng);
+    let fut = g.rng.chance(1, 3);
+    let cap = pick_small_cap(&mut g.rng);
+    let q = if fut { fut_queue(&mut g.rng, flavour, cap) } else { plain_queue(&mut g.rng, flavour, cap) };
+    let mut s = Scenario::new("teardown", q);
+    let n = s.queue.capacity();
+    let np = g.rng.range(1, 2);
+    let mut senders = vec![0u32];
+    for _ in 1..np {
+        let h = g.h();
+        s.setup.push(Op::CloneSender { h: 0, new: h });
+        senders.push(h);
+    }
+    let ns = if flavour == Flavour::Bcast { g.rng.range(1, 3) } else { 1 };
+    let mut streams: Vec<Vec<u32>> = vec![vec![1]];
+    for _ in 1..ns {
+        let h = g.h();
+        s.setup.push(Op::AddStream { h: 1, new: h });
+        streams.push(vec![h]);
+    }
+    let mut total = ns;
+    for st in streams.iter_mut() {
+        if g.rng.chance(1, 2) && total < 4 {
+            let h = g.h();
+            s.setup.push(Op::CloneRecv { h: st[0], new: h });
+            st.push(h);
+            total += 1;
+        }
+    }
+    for &h in &senders {
+        let api = if fut && g.rng.chance(1, 2) { SendApi::Sink } else { SendApi::TrySend };
+        let mut prog = vec![Op::Produce { h, n: g.rng.range(1, n + 4) as u32, api, max_retry: g.rng.range(0, 3) as u32 }];
+        if g.rng.chance(2, 3) {
+            prog.push(Op::DropSender { h });
+        }
+        s.threads.push(ThreadSpec { handles: vec![h], prog, spawned: false });
+    }
+    for st in &streams {
+        let single = st.len() == 1;
+        for &h in st {
+            let uni = single && g.rng.chance(1, 2);
+            if uni {
+                s.setup.push(Op::IntoSingle { h });
+            }
+            let mut prog = Vec::new();
+            let quota = g.rng.range(0, n + 2) as u32;
+            if quota > 0 {
+                let api = if fut {
+                    *g.rng.pick(&[RecvApi::Poll, RecvApi::TryRecv])
+                } else if uni {
+                    *g.rng.pick(&[RecvApi::TryRecv, RecvApi::TryRecvView, RecvApi::TryIterWith, RecvApi::TryIter])
+                } else {
+                    *g.rng.pick(&[RecvApi::TryRecv, RecvApi::TryIter])
+                };
+                prog.push(Op::Consume { h, api, quota, max_empty: g.rng.range(0, 4) as u32, after_end: 0 });
+            }
+            match g.rng.below(4) {
+                0 => prog.push(Op::DropRecv { h }),
+                1 => prog.push(Op::Unsub { h }),
+                _ => {}
+            }
+            s.threads.push(ThreadSpec { handles: vec![h], prog, spawned: false });
+        }
+    }
+    s.probe = false;
+    s.final_drain = false;
+    s.teardown = match g.rng.below(3) {
+        0 => Teardown::SendersFirst,
+        1 => Teardown::ReceiversFirst,
+        _ => Teardown::Mixed(g.rng.next() as u32),
+    };
+    if g.rng.chance(1, 3) {
+        s.slow_clone = 1;
+        s.slow_view = 1;
+    }
+    s.tags = common_tags(&s);
+    let c = sched_for(&mut g.rng, &s, 30);
+    (s, c)
+}
+
+/// `addstream.sole` / `addstream.sibling` (C10). Broadcast only (plain and futures). Producers
+/// keep sending and wrap the ring during the call; the new stream is handed to a freshly
+/// spawned thread that drains it to the end. In `.sibling` another handle of the *parent*
+/// stream keeps receiving concurrently with the call.
+pub fn addstream(seed: u64, sibling: bool) -> (Scenario, SchedCfg) {
+    let mut g = Gen::new(seed);
+    let fut = g.rng.chance(1, 3);
+    let cap = *g.rng.pick(&[0u64, 1, 2, 2, 3, 4]);
+    let q = if fut { fut_queue(&mut g.rng, Flavour::Bcast, cap) } else { plain_queue(&mut g.rng, Flavour::Bcast, cap) };
+    let mut s = Scenario::new(if sibling { "addstream.sibling" } else { "addstream.sole" }, q);
+    let n = s.queue.capacity();
+    // producers send several laps
+    let np = g.rng.range(1, 2);
+    let mut senders = vec![0u32];
+    for _ in 1..np {
+        let h = g.h();
+        s.setup.push(Op::CloneSender { h: 0, new: h });
+        senders.push(h);
+    }
+    let per = (2 * n + g.rng.range(2, 5)) / np + 1;
+    for &h in &senders {
+        let api = if fut && g.rng.chance(1, 2) { SendApi::Sink } else { SendApi::TrySend };
+        s.threads.push(ThreadSpec {
+            handles: vec![h],
+            prog: vec![Op::Produce { h, n: per as u32, api, max_retry: UNLIMITED }, Op::DropSender { h }],
+            spawned: false,
+        });
+    }
+    // an independent stream with its own consumer (must be unaffected)
+    let other = if g.rng.chance(2, 3) {
+        let h = g.h();
+        s.setup.push(Op::AddStream { h: 1, new: h });
+        Some(h)
+    } else {
+        None
+    };
+    // the parent stream: handle 1, plus a sibling handle in the hazardous sub-family
+    let sib = if sibling {
+        let h = g.h();
+        s.setup.push(Op::CloneRecv { h: 1, new: h });
+        Some(h)
+    } else {
+        None
+    };
+    // number of add_stream calls made by the parent's thread
+    let adds = g.rng.range(1, 2);
+    let uni_parent = fut && !sibling && g.rng.chance(1, 2);
+    if uni_parent {
+        s.setup.push(Op::IntoSingle { h: 1 });
+    }
+    let mut prog = Vec::new();
+    let first_thread = s.threads.len();
+    let mut spawned_specs: Vec<ThreadSpec> = Vec::new();
+    let parent_thread_idx = first_thread;
+    let mut next_spawn_idx = parent_thread_idx + 1 + if other.is_some() { 1 } else { 0 } + if sib.is_some() { 1 } else { 0 };
+    let api_for = |g: &mut Gen| if fut { RecvApi::Poll } else { *g.rng.pick(&[RecvApi::TryRecv, RecvApi::Recv]) };
+    for _ in 0..adds {
+        let k = g.rng.range(0, n + 1) as u32;
+        if k > 0 {
+            let api = if fut { RecvApi::TryRecv } else { RecvApi::TryRecv };
+            prog.push(Op::Consume { h: 1, api, quota: k, max_empty: UNLIMITED, after_end: 0 });
+        }
+        let new = g.h();
+        prog.push(Op::AddStream { h: 1, new });
+        prog.push(Op::Spawn { thread: next_spawn_idx as u32, give: vec![new] });
+        let mut p2 = Vec::new();
+        if uni_parent && g.rng.chance(1, 3) {
+            p2.push(Op::Transform { h: new });
+        }
+        let a = api_for(&mut g);
+        p2.push(Op::Consume { h: new, api: a, quota: UNLIMITED, max_empty: UNLIMITED, after_end: 0 });
+        spawned_specs.push(ThreadSpec { handles: vec![], prog: p2, spawned: true });
+        next_spawn_idx += 1;
+    }
+    let a = api_for(&mut g);
+    prog.push(Op::Consume { h: 1, api: a, quota: UNLIMITED, max_empty: UNLIMITED, after_end: 0 });
+    s.threads.push(ThreadSpec { handles: vec![1], prog, spawned: false });
+    if let Some(h) = other {
+        let mut prog = Vec::new();
+        // a second caller racing the first one (CAS retry path in add_stream)
+        if g.rng.chance(1, 2) {
+            let new = g.h();
+            prog.push(Op::AddStream { h, new });
+            prog.push(Op::DropRecv { h: new });
+        }
+        let a = api_for(&mut g);
+        prog.push(Op::Consume { h, api: a, quota: UNLIMITED, max_empty: UNLIMITED, after_end: 0 });
+        s.threads.push(ThreadSpec { handles: vec![h], prog, spawned: false });
+    }
+    if let Some(h) = sib {
+        let a = api_for(&mut g);
+        s.threads.push(ThreadSpec {
+            handles: vec![h],
+            prog: vec![Op::Consume { h, api: a, quota: UNLIMITED, max_empty: UNLIMITED, after_end: 0 }],
+            spawned: false,
+        });
+    }
+    s.threads.extend(spawned_specs);
+    if g.rng.chance(1, 4) {
+        s.slow_clone = 1;
+    }
+    if fut && g.rng.chance(1, 3) {
+        s.spurious_poll = 40;
+    }
+    // stalls anchored at the snapshot inside add_stream: the window between the position
+    // snapshot and the publishing CAS is where the call can go wrong
+    if g.rng.chance(1, 2) {
+        s.trap = Some((rt_probe::ADD_STREAM_SNAPSHOT, g.rng.below(2) as u32, g.rng.range(20, 400) as u32));
+    }
+    s.tags = common_tags(&s);
+    let c = sched_for(&mut g.rng, &s, 50);
+    (s, c)
+}
+
+pub mod rt_probe {
+    pub const ADD_STREAM_SNAPSHOT: u32 = 12;
+    pub const REMOVE_READER_UNLINKED: u32 = 14;
+    pub const CLAIMED_BEFORE_PUBLISH: u32 = 11;
+    pub const CLONE_MID: u32 = 15;
+    pub const VIEW_MID: u32 = 16;
+}
+
+/// `removal` (C11): a slow or idle stream drives the queue to Full; its handles are then
+/// dropped / unsubscribed (last and non-last handle) while producers retry in a loop and
+/// the other streams keep receiving.
+pub fn removal(seed: u64) -> (Scenario, SchedCfg) {
+    let mut g = Gen::new(seed);
+    let fut = g.rng.chance(1, 3);
+    let cap = *g.rng.pick(&[0u64, 1, 2, 2, 3, 4]);
+    let q = if fut { fut_queue(&mut g.rng, Flavour::Bcast, cap) } else { plain_queue(&mut g.rng, Flavour::Bcast, cap) };
+    let mut s = Scenario::new("removal", q);
+    let n = s.queue.capacity();
+    let np = g.rng.range(1, 2);
+    let mut senders = vec![0u32];
+    for _ in 1..np {
+        let h = g.h();
+        s.setup.push(Op::CloneSender { h: 0, new: h });
+        senders.push(h);
+    }
+    let per = (2 * n + g.rng.range(2, 5)) / np + 1;
+    for &h in &senders {
+        let api = if fut && g.rng.chance(1, 2) { SendApi::Sink } else { SendApi::TrySend };
+        s.threads.push(ThreadSpec {
+            handles: vec![h],
+            prog: vec![Op::Produce { h, n: per as u32, api, max_retry: UNLIMITED }, Op::DropSender { h }],
+            spawned: false,
+        });
+    }
+    // victim stream(s): 1-2 handles each, leave after taking at most a few values
+    let nv = g.rng.range(1, 2);
+    let keep_main = g.rng.chance(3, 4); // stream 0 stays and drains to the end
+    let mut victims: Vec<Vec<u32>> = Vec::new();
+    for _ in 0..nv {
+        let h = g.h();
+        s.setup.push(Op::AddStream { h: 1, new: h });
+        let mut v = vec![h];
+        if g.rng.chance(1, 2) {
+            let c = g.h();
+            s.setup.push(Op::CloneRecv { h, new: c });
+            v.push(c);
+        }
+        victims.push(v);
+    }
+    if keep_main {
+        let uni = !fut && g.rng.chance(1, 3);
+        if uni {
+            s.setup.push(Op::IntoSingle { h: 1 });
+        }
+        let prog = consume_until_end(&mut g.rng, 1, uni, fut, true);
+        s.threads.push(ThreadSpec { handles: vec![1], prog, spawned: false });
+    } else {
+        // stream 0 is a victim too, but at least one stream must survive: keep the last victim
+        let mut prog = vec![Op::Yield(g.rng.range(0, 10) as u8)];
+        prog.push(if g.rng.chance(1, 2) { Op::Unsub { h: 1 } } else { Op::DropRecv { h: 1 } });
+        s.threads.push(ThreadSpec { handles: vec![1], prog, spawned: false });
+    }
+    let last = victims.len() - 1;
+    for (i, v) in victims.iter().enumerate() {
+        let survivor = !keep_main && i == last;
+        let separate = v.len() == 2 && g.rng.chance(1, 2);
+        let mut progs: Vec<(Vec<u32>, Vec<Op>)> = if separate { vec![(vec![v[0]], Vec::new()), (vec![v[1]], Vec::new())] } else { vec![(v.clone(), Vec::new())] };
+        for (hs, prog) in progs.iter_mut() {
+            for (j, &h) in hs.clone().iter().enumerate() {
+                prog.push(Op::Yield(g.rng.range(0, 12) as u8));
+                let take = g.rng.below(3) as u32;
+                if take > 0 {
+                    let api = if fut && g.rng.chance(1, 2) { RecvApi::Poll } else { RecvApi::TryRecv };
+                    prog.push(Op::Consume { h, api, quota: take, max_empty: 4, after_end: 0 });
+                }
+                if survivor && j + 1 == hs.len() && !(separate && h == v[0]) {
+                    // this handle stays and drains to the end
+                    let a = if fut { RecvApi::Poll } else { RecvApi::TryRecv };
+                    prog.push(Op::Consume { h, api: a, quota: UNLIMITED, max_empty: UNLIMITED, after_end: 0 });
+                } else {
+                    prog.push(if g.rng.chance(1, 2) { Op::Unsub { h } } else { Op::DropRecv { h } });
+                }
+            }
+        }
+        for (hs, prog) in progs {
+            s.threads.push(ThreadSpec { handles: hs, prog, spawned: false });
+        }
+    }
+    if g.rng.chance(1, 2) {
+        s.trap = Some((rt_probe::REMOVE_READER_UNLINKED, 0, g.rng.range(20, 300) as u32));
+    }
+    if fut && g.rng.chance(1, 3) {
+        s.spurious_poll = 40;
+    }
+    s.tags = common_tags(&s);
+    let c = sched_for(&mut g.rng, &s, 50);
+    (s, c)
+}
+
+/// `churn` (C12): the number of live senders moves 1->2->1 and the consumers of a stream
+/// 1->2->1 (clone, drop, unsubscribe, into_single / into_multi) while other handles are in
+/// the middle of operations; clones are handed to freshly spawned threads.
+pub fn churn(seed: u64) -> (Scenario, SchedCfg) {
+    let mut g = Gen::new(seed);
+    let flavour = pick_flavour(&mut g.rng);
+    let fut = g.rng.chance(1, 4);
+    let cap = pick_small_cap(&mut g.rng);
+    let q = if fut { fut_queue(&mut g.rng, flavour, cap) } else { plain_queue(&mut g.rng, flavour, cap) };
+    let mut s = Scenario::new("churn", q);
+    let ns = if flavour == Flavour::Bcast { g.rng.range(1, 2) } else { 1 };
+    let mut heads = vec![1u32];
+    for _ in 1..ns {
+        let h = g.h();
+        s.setup.push(Op::AddStream { h: 1, new: h });
+        heads.push(h);
+    }
+    let mut spawned: Vec<ThreadSpec> = Vec::new();
+    let n_main_threads = 1 + heads.len();
+    let mut next_spawn = n_main_threads;
+    let sapi = |g: &mut Gen| if fut && g.rng.chance(1, 2) { SendApi::Sink } else { SendApi::TrySend };
+    // the producer thread: sends, clones itself, hands the clone to a new thread, goes on
+    {
+        let mut prog = Vec::new();
+        let rounds = g.rng.range(1, 3);
+        for _ in 0..rounds {
+            let a = sapi(&mut g);
+            prog.push(Op::Produce { h: 0, n: g.rng.range(1, 4) as u32, api: a, max_retry: UNLIMITED });
+            let c = g.h();
+            prog.push(Op::CloneSender { h: 0, new: c });
+            match g.rng.below(3) {
+                0 => prog.push(Op::DropSender { h: c }),
+                1 => {
+                    let a = sapi(&mut g);
+                    prog.push(Op::Produce { h: c, n: g.rng.range(1, 3) as u32, api: a, max_retry: UNLIMITED });
+                    prog.push(Op::DropSender { h: c });
+                }
+                _ => {
+                    prog.push(Op::Spawn { thread: next_spawn as u32, give: vec![c] });
+                    let a = sapi(&mut g);
+                    spawned.push(ThreadSpec {
+                        handles: vec![],
+                        prog: vec![Op::Produce { h: c, n: g.rng.range(1, 4) as u32, api: a, max_retry: UNLIMITED }, Op::DropSender { h: c }],
+                        spawned: true,
+                    });
+                    next_spawn += 1;
+                }
+            }
+        }
+        let a = sapi(&mut g);
+        prog.push(Op::Produce { h: 0, n: g.rng.range(1, 3) as u32, api: a, max_retry: UNLIMITED });
+        prog.push(Op::DropSender { h: 0 });
+        s.threads.push(ThreadSpec { handles: vec![0], prog, spawned: false });
+    }
+    // one consumer thread per stream: receives, clones itself, hands the clone away, converts
+    for &h in &heads {
+        let mut prog = Vec::new();
+        let rounds = g.rng.range(1, 3);
+        let mut is_uni = false;
+        for _ in 0..rounds {
+            let k = g.rng.range(0, 2) as u32;
+            if k > 0 {
+                let api = if fut { RecvApi::TryRecv } else { *g.rng.pick(&[RecvApi::TryRecv, RecvApi::TryIter]) };
+                prog.push(Op::Consume { h, api, quota: k, max_empty: 6, after_end: 0 });
+            }
+            if is_uni {
+                prog.push(Op::IntoMulti { h });
+                is_uni = false;
+            }
+            let c = g.h();
+            prog.push(Op::CloneRecv { h, new: c });
+            match g.rng.below(3) {
+                0 => prog.push(if g.rng.chance(1, 2) { Op::DropRecv { h: c } } else { Op::Unsub { h: c } }),
+                1 => {
+                    prog.push(Op::Consume { h: c, api: RecvApi::TryRecv, quota: g.rng.range(1, 2) as u32, max_empty: 4, after_end: 0 });
+                    prog.push(Op::DropRecv { h: c });
+                    // sole consumer again: the single-consumer fast path may be taken
+                    if !fut && g.rng.chance(1, 2) {
+                        prog.push(Op::IntoSingle { h });
+                        is_uni = true;
+                    }
+                }
+                _ => {
+                    prog.push(Op::Spawn { thread: next_spawn as u32, give: vec![c] });
+                    let api = if fut && g.rng.chance(1, 2) { RecvApi::Poll } else { RecvApi::TryRecv };
+                    spawned.push(ThreadSpec {
+                        handles: vec![],
+                        prog: vec![
+                            Op::Consume { h: c, api, quota: g.rng.range(1, 3) as u32, max_empty: 8, after_end: 0 },
+                            if g.rng.chance(1, 2) { Op::DropRecv { h: c } } else { Op::Unsub { h: c } },
+                        ],
+                        spawned: true,
+                    });
+                    next_spawn += 1;
+                }
+            }
+        }
+        let fin = if fut {
+            RecvApi::Poll
+        } else if is_uni {
+            *g.rng.pick(&[RecvApi::TryRecvView, RecvApi::RecvView, RecvApi::TryRecv])
+        } else {
+            *g.rng.pick(&[RecvApi::TryRecv, RecvApi::Recv])
+        };
+        prog.push(Op::Consume { h, api: fin, quota: UNLIMITED, max_empty: UNLIMITED, after_end: 1 });
+        s.threads.push(ThreadSpec { handles: vec![h], prog, spawned: false });
+    }
+    s.threads.extend(spawned);
+    if g.rng.chance(1, 4) {
+        s.slow_clone = 1;
+        s.slow_view = 1;
+    }
+    if g.rng.chance(3, 10) {
+        s.weak_cas_rate = 2500;
+    }
+    if fut && g.rng.chance(1, 3) {
+        s.spurious_poll = 40;
+    }
+    s.tags = common_tags(&s);
+    let c = sched_for(&mut g.rng, &s, 40);
+    (s, c)
+}
+
+/// `reclaim` (C16, C17): churners repeat add_stream/drop, clone/drop and conversions often
+/// enough for reclamation cycles to start and complete repeatedly, while writers keep
+/// scanning the stream list (N = 1 or 2: the full test fires on every send) and idle
+/// handles never operate.
+pub fn reclaim(seed: u64, counting: bool) -> (Scenario, SchedCfg) {
+    let mut g = Gen::new(seed);
+    let flavour = if g.rng.chance(3, 4) { Flavour::Bcast } else { Flavour::Mpmc };
+    let fut = g.rng.chance(1, 4);
+    let cap = *g.rng.pick(&[0u64, 1, 2, 2]);
+    let q = if fut { fut_queue(&mut g.rng, flavour, cap) } else { plain_queue(&mut g.rng, flavour, cap) };
+    let mut s = Scenario::new(if counting { "reclaim.count" } else { "reclaim" }, q);
+    s.quarantine = !counting;
+    // idle handles that never operate (held by main until teardown); in counting mode the
+    // property only speaks about handles that keep operating
+    let mut idle_sender: Option<u32> = None;
+    if !counting && g.rng.chance(1, 2) {
+        let h = g.h();
+        s.setup.push(Op::CloneSender { h: 0, new: h });
+        idle_sender = Some(h);
+        if g.rng.chance(1, 2) {
+            let r = g.h();
+            s.setup.push(Op::CloneRecv { h: 1, new: r });
+        }
+    }
+    let bc = flavour == Flavour::Bcast;
+    // churner streams / handles
+    let n_churn = g.rng.range(1, 3);
+    let mut churn_heads = Vec::new();
+    for _ in 0..n_churn {
+        if bc {
+            let h = g.h();
+            s.setup.push(Op::AddStream { h: 1, new: h });
+            churn_heads.push(h);
+        } else {
+            let h = g.h();
+            s.setup.push(Op::CloneRecv { h: 1, new: h });
+            churn_heads.push(h);
+        }
+    }
+    // writer
+    let total = g.rng.range(6, 14) as u32;
+    s.threads.push(ThreadSpec {
+        handles: vec![0],
+        prog: vec![Op::Produce { h: 0, n: total, api: SendApi::TrySend, max_retry: UNLIMITED }, Op::Signal(0), Op::DropSender { h: 0 }],
+        spawned: false,
+    });
+    if let Some(h) = idle_sender {
+        // the idle handle never operates; main lets go of it once the writer is done so
+        // that the streams can end
+        s.main_prog.push(Op::Await(0));
+        s.main_prog.push(Op::DropSender { h });
+    }
+    // the main consumer drains to the end (in counting mode through an entry point that
+    // keeps operating instead of sleeping: a handle blocked inside recv does not refresh its
+    // epoch token, and the property only speaks about handles that keep operating)
+    {
+        let a = if counting {
+            RecvApi::TryRecv
+        } else if fut {
+            RecvApi::Poll
+        } else {
+            *g.rng.pick(&[RecvApi::TryRecv, RecvApi::Recv])
+        };
+        let mut prog = vec![Op::Consume { h: 1, api: a, quota: UNLIMITED, max_empty: UNLIMITED, after_end: 0 }];
+        if counting {
+            // a handle that is done must go away: kept alive but idle it would hold its
+            // epoch token back, and the property only speaks about handles that operate
+            prog.push(Op::DropRecv { h: 1 });
+        }
+        s.threads.push(ThreadSpec { handles: vec![1], prog, spawned: false });
+    }
+    for &h in &churn_heads {
+        let times = g.rng.range(8, 40) as u32;
+        let mut body = Vec::new();
+        let a = g.h();
+        match g.rng.below(if bc { 4 } else { 2 }) {
+            0 => {
+                body.push(Op::CloneRecv { h, new: a });
+                body.push(if g.rng.chance(1, 2) { Op::DropRecv { h: a } } else { Op::Unsub { h: a } });
+            }
+            1 => {
+                body.push(Op::CloneRecv { h, new: a });
+                body.push(Op::Consume { h: a, api: RecvApi::TryRecv, quota: 1, max_empty: 0, after_end: 0 });
+                body.push(Op::DropRecv { h: a });
+            }
+            2 => {
+                body.push(Op::AddStream { h, new: a });
+                body.push(Op::DropRecv { h: a });
+            }
+            _ => {
+                body.push(Op::AddStream { h, new: a });
+                body.push(Op::Consume { h: a, api: RecvApi::TryRecv, quota: 1, max_empty: 0, after_end: 0 });
+                body.push(Op::Unsub { h: a });
+            }
+        }
+        // the churner keeps its own stream moving so that it never blocks the writer for long
+        body.push(Op::Consume { h, api: RecvApi::TryRecv, quota: 2, max_empty: 0, after_end: 0 });
+        if counting {
+            body.push(Op::Sample);
+        }
+        let fin = if fut && !counting { RecvApi::Poll } else { RecvApi::TryRecv };
+        s.threads.push(ThreadSpec {
+            handles: vec![h],
+            prog: if counting {
+                vec![Op::Repeat { times, body }, Op::Consume { h, api: fin, quota: UNLIMITED, max_empty: UNLIMITED, after_end: 0 }, Op::DropRecv { h }]
+            } else {
+                vec![Op::Repeat { times, body }, Op::Consume { h, api: fin, quota: UNLIMITED, max_empty: UNLIMITED, after_end: 0 }]
+            },
+            spawned: false,
+        });
+    }
+    // a sender churner (token churn)
+    if g.rng.chance(1, 2) {
+        let hs = g.h();
+        s.setup.insert(0, Op::CloneSender { h: 0, new: hs });
+        let c = g.h();
+        s.threads.push(ThreadSpec {
+            handles: vec![hs],
+            prog: vec![
+                Op::Repeat {
+                    times: g.rng.range(6, 24) as u32,
+                    body: if counting {
+                        // the churning sender also operates in every cycle
+                        vec![Op::CloneSender { h: hs, new: c }, Op::DropSender { h: c }, Op::Produce { h: hs, n: 1, api: SendApi::TrySend, max_retry: 0 }]
+                    } else {
+                        vec![Op::CloneSender { h: hs, new: c }, Op::DropSender { h: c }]
+                    },
+                },
+                Op::DropSender { h: hs },
+            ],
+            spawned: false,
+        });
+    }
+    s.probe = false;
+    s.tags = common_tags(&s);
+    let mut c = if counting {
+        // a thread that is stalled or starved keeps a stale epoch token and legitimately
+        // holds reclamation back; the growth oracle needs every handle to keep operating
+        SchedCfg::new(g.rng.next(), Strategy::Uniform)
+    } else {
+        sched_for(&mut g.rng, &s, 50)
+    };
+    c.max_steps = 4_000_000;
+    (s, c)
+}
+
+/// `seq.churn` (C17): a fixed set of handles stays alive and every one of them performs an
+/// operation in every cycle, while each cycle also does add_stream/drop, clone/drop and
+/// into_single/into_multi; optionally a non-last handle of a stream was dropped earlier.
+pub fn seq_churn(seed: u64) -> (Scenario, SchedCfg) {
+    use crate::seq::SeqCall as C;
+    let mut g = Gen::new(seed);
+    let flavour = pick_flavour(&mut g.rng);
+    let fut = g.rng.chance(1, 4);
+    let cap = pick_cap(&mut g.rng);
+    let q = if fut { fut_queue(&mut g.rng, flavour, cap) } else { plain_queue(&mut g.rng, flavour, cap) };
+    let mut s = Scenario::new("seq.churn", q);
+    let bc = flavour == Flavour::Bcast;
+    let mut calls = Vec::new();
+    // fixed handles: sender 0 (+ clone 2), receiver 1 (+ maybe a second stream 3)
+    let two_senders = g.rng.chance(1, 2);
+    if two_senders {
+        calls.push(C::CloneSender { h: 0, new: 2 });
+    }
+    let second_stream = bc && g.rng.chance(1, 2);
+    if second_stream {
+        calls.push(C::AddStream { h: 1, new: 3 });
+    }
+    // with an earlier drop of a non-last handle of a stream
+    let early_drop = g.rng.chance(1, 2);
+    if early_drop {
+        calls.push(C::CloneRecv { h: 1, new: 4 });
+        calls.push(C::DropRecv { h: 4 });
+    }
+    let mut body = Vec::new();
+    // every fixed handle operates in every cycle
+    body.push(C::TrySend { h: 0 });
+    if two_senders {
+        body.push(C::TrySend { h: 2 });
+    }
+    body.push(C::TryRecv { h: 1 });
+    body.push(C::TryRecv { h: 1 });
+    if second_stream {
+        body.push(C::TryRecv { h: 3 });
+        body.push(C::TryRecv { h: 3 });
+    }
+    // churn
+    let kinds = g.rng.range(1, 7);
+    if kinds & 1 != 0 {
+        body.push(C::CloneRecv { h: 1, new: 10 });
+        body.push(if g.rng.chance(1, 2) { C::DropRecv { h: 10 } } else { C::Unsub { h: 10 } });
+    }
+    if kinds & 2 != 0 && (bc || false) {
+        body.push(C::AddStream { h: 1, new: 11 });
+        body.push(C::DropRecv { h: 11 });
+    }
+    if kinds & 4 != 0 {
+        body.push(C::CloneSender { h: 0, new: 12 });
+        body.push(C::DropSender { h: 12 });
+    }
+    if !fut && g.rng.chance(1, 2) && !(early_drop && false) {
+        body.push(C::IntoSingle { h: 1 });
+        body.push(C::IntoMulti { h: 1 });
+    }
+    body.push(C::Sample { cycle: u32::MAX });
+    let times = *g.rng.pick(&[100u32, 100, 200, 400, 800]);
+    calls.push(C::Repeat { times, body });
+    s.seq = Some(calls);
+    s.probe = false;
+    s.final_drain = false;
+    s.teardown = Teardown::Mixed(g.rng.next() as u32);
+    s.tags = common_tags(&s);
+    s.tags.push(if early_drop { "early_drop_of_non_last_handle".into() } else { "no_early_drop".into() });
+    let mut c = SchedCfg::new(g.rng.next(), Strategy::Uniform);
+    c.livelock_window = 100_000;
+    c.max_steps = 20_000_000;
+    (s, c)
+}
